@@ -48,7 +48,9 @@ COMPONENTS = {"real": ["redress.circuit.CircuitBreaker", "redress.budget.Budget"
 ASSUMPTIONS = ["pre-emption granularity: source lines of circuit.py/budget.py (quick), bytecodes (part of thorough)",
                "the clock does not move while the threads race (each method samples the clock before taking the lock; moving time "
                "between sample and lock is a different question from atomicity)", "sampling of schedules, not exhaustive enumeration"]
-BUDGETS = {"quick": (6000, 50), "thorough": (400000, 285)}
+INTERLEAVING_MEASURE = "distinct (concurrent program, context-switch sequence) pairs"
+STATES_MEASURE = "distinct component states (state, probe flag, history length / tokens, lock held) observed at yield points"
+BUDGETS = {"quick": (9000, 90), "thorough": (400000, 285)}
 SHRINK_CAP = 120
 TRIP = ["TRANSIENT", "SERVER_ERROR"]
 
@@ -300,7 +302,8 @@ def execute(scn):
            "nontrivial": sched.switches > len(scn["threads"]) - 1,
            "faults": {"thread_preempt": sched.switches}, "probes": {"lock_contended": sched.contended} if sched.contended else {},
            "sim_us": 0, "digest": digest([sorted(history, key=lambda h: h["inv"]), sched.schedule]), "runs": 1,
-           "states": [(comp,) + s for s in sched.states], "schedule": list(sched.schedule)}
+           "states": [(comp,) + s for s in sched.states], "schedule": list(sched.schedule),
+           "interleaving": (digest([scn["component"], scn["cfg"], scn["init"], scn["threads"]]), tuple(cs))}
     if res["nontrivial"]:
         res["sample"] = {"scenario": {k: v for k, v in scn.items() if k != "schedule"}, "context_switch_sequence": cs[:60],
                          "history": sorted(history, key=lambda h: h["inv"])}
